@@ -289,7 +289,8 @@ func parseIndexPage(page []byte, pageNum uint32, indexType IndexType) IndexPageI
 	}
 	
 	// Parse common header fields
-	info.LSN = binary.LittleEndian.Uint64(page[0:8])
+	// pd_lsn is a PageXLogRecPtr {uint32 xlogid; uint32 xrecoff}: high half first
+	info.LSN = uint64(binary.LittleEndian.Uint32(page[0:4]))<<32 | uint64(binary.LittleEndian.Uint32(page[4:8]))
 	info.LSNStr = FormatLSN(info.LSN)
 	
 	lower := binary.LittleEndian.Uint16(page[12:14])
